@@ -9,3 +9,4 @@ open Just.Props.C14
 #print axioms echo_switches_change_only_echo
 #print axioms quiet_changes_no_execution
 #print axioms noEcho_keeps_everything_else
+#print axioms dry_run_matches_real
